@@ -524,7 +524,7 @@ def run(tier):
     res.assumptions = ["IDL requests whose normalised bound is not an integer may be rejected with invalid_argument (reported error, not judged)",
                        "equates between two variables is only exercised with unit coefficients (other forms are not difference relations)"]
     exes = [build.driver("dbg", "net_drv"), build.driver("rel", "net_drv")]
-    total = 6000 if tier == "quick" else 40000
+    total = 6000 if tier == "quick" else 250000
     per = 50 if tier == "quick" else 200
     common.pmap(work, [(exes, s, per) for s in range(0, total, per)], res)
     for r in RELS:
